@@ -256,7 +256,7 @@ def needle(ctx):
     ones must all be reachable.  Real pseudo-random draws from a seeded generator (the law enumeration cannot reach
     thousands of rejection rounds)."""
     import random as _r, EoN.simulation as sim
-    for k in range(ctx.scale(3, 20)):
+    for k in range(ctx.scale(6, 24)):
         K = ctx.rng.choice([2500, 6000])
         m = ctx.rng.randint(1, 4)
         live = {("live", i): float(ctx.rng.choice([F(1, 4), F(1, 2), F(1), F(3, 2), F(2)])) for i in range(m)}
@@ -270,6 +270,18 @@ def needle(ctx):
                 ld.insert(it, weight=live[it])
             else:
                 ld.update(it, weight_increment=0)           # present with weight 0 (what a zero rate / weight label gives)
+        # half of the cases: candidates leave again before the draws (removal swaps the last item into the hole, so the order
+        # of the item list and the insertion order of the weight table drift apart — any code path that pairs them by position
+        # is then wrong)
+        if k % 2 == 1:
+            gone = ctx.rng.sample([it for it in order if it not in live], min(len(order) - len(live), 40 + ctx.rng.randint(0, 60)))
+            for it in gone:
+                ld.remove(it)
+            if len(live) > 1 and ctx.rng.random() < 0.5:
+                it = ctx.rng.choice(list(live))
+                ld.remove(it); del live[it]
+            rep["removed_before_draws"] = len(gone)
+            ctx.count("needle:with removals")
         old = sim.random
         sim.random = _r.Random(seed)
         picks = {}
